@@ -164,11 +164,19 @@ Example C08_hyps_satisfiable_masked :
   agree_on_unmasked (ex_fit QOps (99#1)%Q (0#1)%Q (1000#1)%Q) (ex_fit QOps (-7#1)%Q (1#2)%Q (3#1)%Q) /\
   ex_fit QOps (99#1)%Q (0#1)%Q (1000#1)%Q <> ex_fit QOps (-7#1)%Q (1#2)%Q (3#1)%Q.
 Proof. exact ex_hyps_masked. Qed.
+(* two inversions with the same objects and regularization, differing in the curvature matrix and in the
+   reconstruction value at the unregularized parameter *)
+Example C08_hyps_satisfiable_unregularized :
+  inv_okb (ex_inv (RL ln)) = true /\ inv_okb (ex_inv2 (RL ln)) = true /\
+  objs (ex_inv (RL ln)) = objs (ex_inv2 (RL ln)) /\ blocks (ex_inv (RL ln)) = blocks (ex_inv2 (RL ln)) /\
+  (forall i, In i (reg_indices (objs (ex_inv (RL ln)))) -> at_ (recon (ex_inv (RL ln))) i = at_ (recon (ex_inv2 (RL ln))) i) /\
+  recon (ex_inv (RL ln)) <> recon (ex_inv2 (RL ln)).
+Proof. exact ex_hyps_inv2. Qed.
 (* the values the model computes on that input (rational execution): chi2 = 1/4 + 9 + 1 = 41/4,
    s^T H s over parameters {0, 2, 3} = 2 + (8 + 12 + 18) = 40, reduced matrices 3 x 3 *)
 Example C08_example_values :
   @fit_chi_squared QOps (ex_fit QOps (99#1)%Q (0#1)%Q (1000#1)%Q) = (41 # 4)%Q /\
-  @regularization_term QOps (ex_inv QOps) = (40 # 1)%Q /\
+  @regularization_term QOps (ex_inv QOps) = (40 # 1)%Q /\ @regularization_term QOps (ex_inv2 QOps) = (40 # 1)%Q /\
   @regularization_matrix_reduced QOps (ex_inv QOps) = [[2#1; 0#1; 0#1]; [0#1; 2#1; (-1)#1]; [0#1; (-1)#1; 2#1]]%Q /\
   @curvature_reg_matrix_reduced QOps (ex_inv QOps) = [[6#1; 0#1; 1#1]; [0#1; 7#1; 1#1]; [1#1; 1#1; 8#1]]%Q /\
   @fit_residual_map QOps (ex_fit QOps (99#1)%Q (0#1)%Q (1000#1)%Q) = [1#1; 0#1; (-3)#1; 4#1]%Q.
